@@ -336,6 +336,51 @@ def rules(rep, m):
             r4.fail()
 
 
+def compiler_witness(rep, m):
+    """Thorough tier: every first-member step used to accept a cast is re-checked by the real compiler as a
+    _Static_assert(offsetof(struct S, first) == 0) in one translation unit (a compile-fail witness)."""
+    import os, subprocess, tempfile
+    r = rep.rule("R-C13-1w", "compile-fail witness: for every accepted struct cast, each first-member step is confirmed by "
+                 "the compiler with _Static_assert(offsetof(...) == 0)", floor=5)
+    steps = set()
+    for f, n, fr, to in struct_casts(m):
+        for a, b in ((fr, to), (to, fr)):
+            ch = m.first_member_chain(a)
+            if b in ch:
+                for i in range(ch.index(b)):
+                    fld = m.records[ch[i]][0][0]
+                    steps.add((ch[i], fld))
+    if not steps:
+        return
+    hdrs = sorted(os.listdir(os.path.join(m.repo, "include"))) + sorted(h for h in os.listdir(os.path.join(m.repo, "src")) if h.endswith(".h"))
+    lines = ["#include <stddef.h>"] + ['#include "%s"' % h for h in hdrs if h.endswith(".h")]
+    local_structs = {"pool_item", "queue_tag", "event_peek", "observer_tag", "static_pools_tag"}
+    for sname, fld in sorted(steps):
+        if sname in local_structs or sname not in m.records:
+            continue
+        lines.append('_Static_assert(offsetof(struct %s, %s) == 0, "%s.%s not first");' % (sname, fld, sname, fld))
+        r.instance("offsetof(struct %s, %s) == 0" % (sname, fld))
+    d = tempfile.mkdtemp(prefix="cimba-wit-")
+    try:
+        src = os.path.join(d, "witness.c")
+        open(src, "w").write("\n".join(lines) + "\n")
+        gen = os.path.join(d, "gen")
+        os.mkdir(gen)
+        p = subprocess.run(["clang", "-fsyntax-only", "-ferror-limit=0", "-std=c17", "-D_POSIX_C_SOURCE=200809L", "-w",
+                            "-I" + os.path.join(m.repo, "include"), "-I" + os.path.join(m.repo, "src"), "-I" + gen, src],
+                           capture_output=True, text=True)
+        errs = [l for l in p.stderr.splitlines() if "error:" in l]
+        n = len(r.instances)
+        r.obligations += n
+        r.discharged += max(0, n - len(errs))
+        for e in errs:
+            rep.finding(r, "witness", "offset:" + e.split("error:")[1].strip()[:60], "the compiler refutes a first-member "
+                        "step: " + e.split("error:")[1].strip(), where="witness.c")
+    finally:
+        import shutil
+        shutil.rmtree(d, ignore_errors=True)
+
+
 def run(tier="quick"):
     models = common.load_models(tier)
     rep = Report(PID, tier, models[0])
@@ -344,4 +389,6 @@ def run(tier="quick"):
     for m in models:
         rep.configs.append(m.config)
         rules(rep, m)
+    if tier == "thorough":
+        compiler_witness(rep, models[0])
     return rep.finish()
